@@ -87,7 +87,7 @@ def run(case):
     lat = cases.lattice(case['lattice'])
     dt = np.dtype(case['dtype'])
     data = np.array(case['data']).astype(dt)
-    if case.get('scale') and dt == np.float64:
+    if case.get('scale') and dt == np.float64 and (data[data > 0].min() >= 1e-3 if (data > 0).any() else False):  # (already tiny values are not scaled further: they would underflow to zero)
         # densities in other units: the property is about ratios (probabilities), whatever the absolute scale
         data = (np.minimum(data, 1e3) if case['scale'] > 1 else data) * case['scale']
     temp = case['temperature']
@@ -106,7 +106,7 @@ def run(case):
     check_volume(vol, data, temp, 'first density', case.get('graph_order', 0))
     if not np.array_equal(np.asarray(vol.data), data):
         raise Violation('density-unchanged', 'get_free_energy modified the density')
-    labels = [str(dt), 'layout-' + case.get('layout', 'C')] + (['scaled-density'] if case.get('scale') and dt == np.float64 else [])
+    labels = [str(dt), 'layout-' + case.get('layout', 'C')] + (['scaled-density'] if case.get('scale') and dt == np.float64 else []) + (['negative-zero'] if dt == np.float64 and bool(np.any(np.signbit(data) & (data == 0))) else [])
     if case.get('second') is not None:
         d2 = np.array(case['second']).astype(dt)
         total = data.astype(np.float64) + d2.astype(np.float64)
@@ -134,6 +134,9 @@ def grids(draw, tier):
         val = st.one_of(st.just(0), st.just(0), st.integers(1, 50), st.integers(1, top), st.sampled_from([1, 1, 2, top]))
     else:
         val = st.one_of(st.just(0.0), st.just(0.0), st.floats(1e-3, 1e3), st.floats(1.0, 1e12), st.sampled_from([1.0, 0.5, 3.0]))
+        if dtype == 'float64':
+            # an empty voxel may be stored as -0.0 (e.g. after rounding); a probability may be subnormal (1e-300 beside 1e10)
+            val = st.one_of(val, st.sampled_from([-0.0, -0.0, 1e-300, 1e10]))
         if dtype == 'float16':
             val = st.one_of(st.just(0.0), st.just(0.0), st.floats(0.5, 200.0), st.sampled_from([1.0, 0.5, 3.0]))
 
